@@ -25,7 +25,10 @@ class XFull:
         def get(E_, st, a):
             pos = st.x.get('lexpos', 0)
             if pos < len(chars): E_.store(st, a[1], 1, chars[pos]); st.x['lexpos'] = pos + 1
-            else: E_.store(st, a[0].add(lexlib.STATE_OFF), 4, 6)
+            else:
+                E_.store(st, a[0].add(lexlib.STATE_OFF), 4, 6)
+                k = st.x.get('eofreads', 0) + 1; st.x['eofreads'] = k          # a reader that keeps asking at end of file is looping
+                if k > 64: raise Budget('steps')
             return a[0]
         E.stubs['_ZNSi3getERc'] = get
         def strtoul(E_, st, a):
